@@ -576,14 +576,88 @@ fn hip_martingale(ctx: &Ctx) -> u64 {
     n
 }
 
+// ------------------------------------------------------------- the "deserialized" clause
+// The estimate and the six bounds of deserialize(serialize(s)) must be those of s, so every
+// ordering / nesting / exactness fact established for s holds for the restored sketch too.
+
+fn hll_deserialized(ctx: &Ctx, t: &Trio, mk: &dyn Fn() -> serde_json::Value) {
+    for s in &t.s {
+        let r = catch(|| HllSketch::deserialize(&s.serialize()));
+        match r {
+            Ok(Ok(d)) => {
+                if hllm::obs_est(&d) != hllm::obs_est(s) {
+                    ctx.violation("hll.bounds.deserialized", &format!("estimate/bounds change across serialize->deserialize: {} -> {}", s.estimate(), d.estimate()), mk());
+                }
+            }
+            Ok(Err(e)) => {
+                ctx.violation("hll.bounds.deserialized", &format!("own image rejected: {e}"), mk());
+            }
+            Err(p) => {
+                ctx.violation(&format!("panic|{}", p.site_key()), &format!("serialize/deserialize panicked: {}", p.message), mk());
+            }
+        }
+    }
+}
+
+fn theta_deserialized(ctx: &Ctx, p: &crate::thetam::Pair, mk: &dyn Fn() -> serde_json::Value) {
+    use NumStdDev::*;
+    let o = |c: &CompactThetaSketch| [c.estimate(), c.lower_bound(One), c.lower_bound(Two), c.lower_bound(Three), c.upper_bound(One), c.upper_bound(Two), c.upper_bound(Three)].map(f64::to_bits);
+    let r = catch(|| {
+        let mut bad = vec![];
+        for ordered in [true, false] {
+            let c = p.s.compact(ordered);
+            let want = o(&c);
+            for (form, img) in [("serialize", c.serialize()), ("serialize_compressed", c.serialize_compressed())] {
+                match CompactThetaSketch::deserialize_with_seed(&img, p.cfg.seed) {
+                    Ok(d) => {
+                        if o(&d) != want || d.is_empty() != c.is_empty() || d.is_estimation_mode() != c.is_estimation_mode() {
+                            bad.push(format!("{form} (ordered={ordered}): estimate {} -> {}, estimation mode {} -> {}", c.estimate(), d.estimate(), c.is_estimation_mode(), d.is_estimation_mode()));
+                        }
+                    }
+                    Err(e) => bad.push(format!("{form}: own image rejected: {e}")),
+                }
+            }
+        }
+        bad
+    });
+    match r {
+        Ok(bad) => {
+            if let Some(w) = bad.first() {
+                ctx.violation("theta.bounds.deserialized", &format!("estimate/bounds change across compact->serialize->deserialize: {w}"), mk());
+            }
+        }
+        Err(p) => {
+            ctx.violation(&format!("panic|{}", p.site_key()), &format!("compact/serialize/deserialize panicked: {}", p.message), mk());
+        }
+    }
+}
+
+fn cpc_deserialized(ctx: &Ctx, d: &Duo, mk: &dyn Fn() -> serde_json::Value) {
+    use NumStdDev::*;
+    let o = |c: &datasketches::cpc::CpcSketch| [c.estimate(), c.lower_bound(One), c.lower_bound(Two), c.lower_bound(Three), c.upper_bound(One), c.upper_bound(Two), c.upper_bound(Three)].map(f64::to_bits);
+    match catch(|| datasketches::cpc::CpcSketch::deserialize(&d.s.serialize())) {
+        Ok(Ok(r)) => {
+            if o(&r) != o(&d.s) {
+                ctx.violation("cpc.bounds.deserialized", &format!("estimate/bounds change across serialize->deserialize: {} -> {}", d.s.estimate(), r.estimate()), mk());
+            }
+        }
+        Ok(Err(e)) => {
+            ctx.violation("cpc.bounds.deserialized", &format!("own image rejected: {e}"), mk());
+        }
+        Err(p) => {
+            ctx.violation(&format!("panic|{}", p.site_key()), &format!("serialize/deserialize panicked: {}", p.message), mk());
+        }
+    }
+}
+
 pub fn run(ctx: &Ctx) -> i32 {
     let total = AtomicU64::new(0);
     let jobs: Vec<Box<dyn Fn() + Sync + Send>> = vec![
         // (1) ordering/nesting/exactness in every explored state
-        Box::new(|| crate::c02::explore(ctx, &crate::c02::no_observer)),
+        Box::new(|| crate::c02::explore(ctx, &hll_deserialized)),
         Box::new(|| crate::c03::explore(ctx, &crate::c03::no_observer)),
-        Box::new(|| crate::c04::explore(ctx, &crate::c04::no_observer)),
-        Box::new(|| crate::c05::explore(ctx, &crate::c05::no_observer)),
+        Box::new(|| crate::c04::explore(ctx, &theta_deserialized)),
+        Box::new(|| crate::c05::explore(ctx, &cpc_deserialized)),
         Box::new(|| crate::c06::explore(ctx, &crate::c06::no_observer)),
         // (2) estimator argument spaces
         Box::new(|| {
